@@ -1,6 +1,6 @@
-import SafeC.Props.C05Mem
-import SafeC.Models.Query
-import SafeC.Models.Query2
+import SafeC.Proofs.EVQuery
+import SafeC.Models.Tok
+import SafeC.Models.Copy
 /-!
 # C05 for the query families, through the `EV` event judgement
 
@@ -21,173 +21,408 @@ code of that function below — the theorem says exactly what the code does).
 namespace SafeC.Props.C05Query
 open SafeC Gen SafeC.Props.C05Ev SafeC.Props.C05Mem
 
-/-- result-code discipline: silent with a result code from `benign`, or one `k`-handler event with the returned code -/
-def QPost {α} (benign : List Nat) (k : Kind) (code : α → Nat) : α → List Event → Prop :=
-  fun y es => (es = [] ∧ code y ∈ benign) ∨ (code y ≠ EOK ∧ es = [.handler k (code y)])
+theorem strcmpTail_ev (d s : Nat) : EV (strcmpTail d s) (P2 [EOK] .str) := by unfold strcmpTail; ev_walk
+theorem strcmpLoop_ev (sb : Bos) (n d s l : Nat) : EV (strcmpLoop sb n d s l) (P2 [EOK] .str) := by
+  cases sb <;>
+  induction n generalizing d s l with
+  | zero => unfold strcmpLoop; ev_walk using strcmpTail_ev _ _
+  | succ n ih => unfold strcmpLoop; ev_walk using strcmpTail_ev _ _, ih _ _ _
+theorem strcmp_s_ev (dest dmax src : Nat) (db sb : Bos) : EV (strcmp_s dest dmax src db sb) (P2 [EOK] .str) := by
+  unfold strcmp_s
+  open_chk (qChkS_ev _ _ _ _)
+  · exact strcmpLoop_ev _ _ _ _ _
+  · ev_walk
 
-/-- the same with the handler kind left open -/
-def QPostAny {α} (benign : List Nat) (code : α → Nat) : α → List Event → Prop :=
-  fun y es => (es = [] ∧ code y ∈ benign) ∨ (code y ≠ EOK ∧ ∃ k, es = [.handler k (code y)])
+theorem q_strcasecmpTail (d s : Nat) : Quiet (strcasecmpTail d s) := by unfold strcasecmpTail; quiet
+theorem strcasecmpTail_ev (d s : Nat) : EV (strcasecmpTail d s) (P2 [EOK] .str) := by unfold strcasecmpTail; ev_walk
+theorem strcasecmpLoop_ev (n d s : Nat) : EV (strcasecmpLoop n d s) (P2 [EOK] .str) := by
+  induction n generalizing d s with
+  | zero => unfold strcasecmpLoop; ev_walk using strcasecmpTail_ev _ _
+  | succ n ih => unfold strcasecmpLoop; ev_walk using strcasecmpTail_ev _ _, ih _ _
+theorem strcasecmp_s_ev (dest dmax src : Nat) (db : Bos) : EV (strcasecmp_s dest dmax src db) (P2 [EOK] .str) := by
+  unfold strcasecmp_s
+  open_chk (qChkS_ev _ _ _ _)
+  · exact strcasecmpLoop_ev _ _ _
+  · ev_walk
 
-/-- predicates / counters: silent, or one str-handler event and the failure value -/
-def FPost {α} (failv : α) : α → List Event → Prop :=
-  fun y es => es = [] ∨ (y = failv ∧ ∃ c, c ≠ EOK ∧ es = [.handler .str c])
+theorem strcmpfldLoop_ev (n d s : Nat) : EV (strcmpfldLoop n d s) (P2 [EOK] .str) := by
+  induction n generalizing d s with
+  | zero => unfold strcmpfldLoop; exact strcmpTail_ev _ _
+  | succ n ih => unfold strcmpfldLoop; ev_walk using strcmpTail_ev _ _, ih _ _
+theorem strcmpfld_s_ev (dest dmax src : Nat) (db : Bos) : EV (strcmpfld_s dest dmax src db) (P2 [EOK] .str) := by
+  unfold strcmpfld_s
+  open_chk (qChkS_ev _ _ _ _)
+  · exact strcmpfldLoop_ev _ _ _
+  · ev_walk
 
-/-- outcome of an entry-check block returning `Option code` -/
-def OptPost (k : Kind) : Option Nat → List Event → Prop :=
-  fun r es => (r = none ∧ es = []) ∨ (∃ c, r = some c ∧ c ≠ EOK ∧ es = [.handler k c])
+theorem strstrOuter_ev (src slen n d : Nat) : EV (strstrOuter src slen n d) (P2 [EOK, ESNOTFND] .str) := by
+  induction n generalizing d with
+  | zero => unfold strstrOuter; ev_walk
+  | succ n ih => unfold strstrOuter; ev_walk using ih _, q_strstrInner _ _ _ _ _
+theorem strstr_s_ev (dest dmax src slen : Nat) (db sb : Bos) : EV (strstr_s dest dmax src slen db sb) (P2 [EOK, ESNOTFND] .str) := by
+  unfold strstr_s
+  open_chk (qChkS_ev _ _ _ _)
+  · open_chk (qChkSlenS_ev _ _)
+    · ev_walk using strstrOuter_ev _ _ _ _, q_strlenP _ _ _
+    · ev_walk
+  · ev_walk
 
-theorem optThen {β} {k : Kind} {p : Prog (Option Nat)} {f : Option Nat → Prog β} {R : β → List Event → Prop}
-    (hp : EV p (OptPost k)) (hnone : EV (f none) R)
-    (hsome : ∀ c, c ≠ EOK → EV (f (some c)) (fun y es' => R y ([.handler k c] ++ es'))) : EV (p >>= f) R := by
-  refine EV.bind hp (fun r es h => ?_)
-  rcases h with ⟨rfl, rfl⟩ | ⟨c, rfl, hc, rfl⟩
-  · simpa using hnone
-  · exact hsome c hc
+theorem strcasestrOuter_ev (src slen n d : Nat) : EV (strcasestrOuter src slen n d) (P2 [EOK, ESNOTFND] .str) := by
+  induction n generalizing d with
+  | zero => unfold strcasestrOuter; ev_walk
+  | succ n ih => unfold strcasestrOuter; ev_walk using ih _, q_strcasestrInner _ _ _ _ _
+theorem strcasestr_s_ev (dest dmax src slen : Nat) (db sb : Bos) : EV (strcasestr_s dest dmax src slen db sb) (P2 [EOK, ESNOTFND] .str) := by
+  unfold strcasestr_s
+  open_chk (qChkS_ev _ _ _ _)
+  · ev_walk using strcasestrOuter_ev _ _ _ _
+  · ev_walk
 
-theorem qFailS_ev (c : Nat) (hc : c ≠ EOK) : EV (qFailS c) (OptPost .str) := by
-  unfold qFailS
-  exact EV.bind (EV.handlerS c) (fun _ es he => by subst he; exact EV.pure _ (Or.inr ⟨c, rfl, hc, by simp⟩))
-theorem qFailM_ev (c : Nat) (hc : c ≠ EOK) : EV (qFailM c) (OptPost .mem) := by
-  unfold qFailM
-  exact EV.bind (EV.handlerM c) (fun _ es he => by subst he; exact EV.pure _ (Or.inr ⟨c, rfl, hc, by simp⟩))
-theorem optNone {k : Kind} : EV (pure none : Prog (Option Nat)) (OptPost k) := EV.pure _ (Or.inl ⟨rfl, rfl⟩)
+theorem strchr_s_ev (dest dmax : Nat) (ch : Int) (db : Bos) : EV (strchr_s dest dmax ch db) (P2 [EOK, ESNOTFND] .str) := by
+  unfold strchr_s
+  open_chk (qChkS_ev _ _ _ _)
+  · ev_walk using q_strchrP _ _ _
+  · ev_walk
 
-macro "opt_walk" : tactic => `(tactic| repeat (first
-  | exact qFailS_ev _ (by decide)
-  | exact qFailM_ev _ (by decide)
-  | exact optNone
-  | split))
+/-! mixed handler kinds: `memchr_s` / `memrchr_s` check dest through the MEM handler and `ch > 255` through the STR handler -/
+abbrev P2Any {β} (benign : List Nat) : Nat × β → List Event → Prop := QPostAny benign (·.1)
 
-theorem qChkS_ev (dest dmax : Nat) (db : Bos) (src : Option Nat) : EV (qChkS dest dmax db src) (OptPost .str) := by
-  unfold qChkS; opt_walk
-theorem qChkM_ev (dest dmax : Nat) (db : Bos) : EV (qChkM dest dmax db) (OptPost .mem) := by
-  unfold qChkM; opt_walk
-theorem qChkSlenS_ev (slen : Nat) (sb : Bos) : EV (qChkSlenS slen sb) (OptPost .str) := by
-  unfold qChkSlenS; opt_walk
+theorem memrchr_s_ev (dest dmax : Nat) (ch : Int) (db : Bos) : EV (memrchr_s dest dmax ch db) (P2Any [EOK, ESNOTFND]) := by
+  unfold memrchr_s
+  open_chk (qChkM_ev _ _ _)
+  · ev_walk using q_memrchrP _ _ _
+  · ev_walk
+theorem memchr_s_ev (dest dmax : Nat) (ch : Int) (db : Bos) : EV (memchr_s dest dmax ch db) (P2Any [EOK, ESNOTFND]) := by
+  unfold memchr_s
+  open_chk (qChkM_ev _ _ _)
+  · ev_walk using q_memchrP _ _ _
+  · ev_walk
 
-theorem memcmpChecks_ev (max dlen slen dB sB dL dL' : Nat) (db sb : Bos) :
-    EV (memcmpChecks max dlen slen dB sB dL dL' db sb) (OptPost .mem) := by
-  unfold memcmpChecks
-  refine EV.bind (Q := OptPost .mem) (by opt_walk) (fun r es h => ?_)
-  rcases h with ⟨rfl, rfl⟩ | ⟨c, rfl, hc, rfl⟩
-  · simp only [List.nil_append]
-    split
-    · exact qFailM_ev _ (by decide)
-    · refine EV.bind (Q := OptPost .mem) (by opt_walk) (fun r es h => ?_)
-      rcases h with ⟨rfl, rfl⟩ | ⟨c, rfl, hc, rfl⟩
-      · simp only [List.nil_append]
-        opt_walk
-      · exact EV.pure _ (Or.inr ⟨c, rfl, hc, by simp⟩)
-  · exact EV.pure _ (Or.inr ⟨c, rfl, hc, by simp⟩)
+theorem strpbrkOuter_ev (src slen n d : Nat) : EV (strpbrkOuter src slen n d) (P2 [EOK, ESNOTFND] .str) := by
+  induction n generalizing d with
+  | zero => unfold strpbrkOuter; ev_walk
+  | succ n ih => unfold strpbrkOuter; ev_walk using ih _, q_strpbrkInner _ _ _
 
-/-! ## the walking tactic -/
+theorem handleStrBosOverflow_ev (cfg : Cfg) (dest dmax : Nat) (hd : dest ≠ 0) (hz : dmax ≠ 0) (hm : dmax ≤ RSIZE_MAX_STR) :
+    EV (handleStrBosOverflow cfg dest dmax) (fun c es => c ≠ EOK ∧ es = [.handler .str c]) := by
+  unfold handleStrBosOverflow strnlen_s
+  simp only [hd, hz, if_false, Nat.not_lt.mpr hm]
+  refine Quiet.then_ (q_strnlenLoop _ _ _ _) (fun len => ?_)
+  split
+  · exact EV.bind (EV.handleError _ _ _ _) (fun _ es he => by subst he; exact EV.pure _ ⟨ne_ESLEMAX, by simp⟩)
+  · exact EV.bind (EV.handleError _ _ _ _) (fun _ es he => by subst he; exact EV.pure _ ⟨ne_EOVERFLOW, by simp⟩)
 
-theorem ne_ESNULLP : ESNULLP ≠ EOK := by decide
-theorem ne_ESZEROL : ESZEROL ≠ EOK := by decide
-theorem ne_ESLEMIN : ESLEMIN ≠ EOK := by decide
-theorem ne_ESLEMAX : ESLEMAX ≠ EOK := by decide
-theorem ne_ESOVRLP : ESOVRLP ≠ EOK := by decide
-theorem ne_ESNOSPC : ESNOSPC ≠ EOK := by decide
-theorem ne_ESUNTERM : ESUNTERM ≠ EOK := by decide
-theorem ne_ESNOTFND : ESNOTFND ≠ EOK := by decide
-theorem ne_ESNODIFF : ESNODIFF ≠ EOK := by decide
-theorem ne_EOVERFLOW : EOVERFLOW ≠ EOK := by decide
+theorem strspn_s_ev (dest dmax src slen : Nat) (db sb : Bos) : EV (strspn_s dest dmax src slen db sb) (P2 [EOK] .str) := by
+  unfold strspn_s
+  open_chk (qChkS_ev _ _ _ _)
+  · open_chk (qChkSlenS_ev _ _)
+    · ev_walk using q_spanOuter _ _ _ _ _ _
+    · ev_walk
+  · ev_walk
+/-- strcspn_s: the EOVERFLOW report goes through the MEM handler (known finding) — kind left open -/
+theorem strcspn_s_ev (dest dmax src slen : Nat) (db sb : Bos) : EV (strcspn_s dest dmax src slen db sb) (P2Any [EOK]) := by
+  unfold strcspn_s
+  open_chk (qChkS_ev _ _ _ _)
+  · ev_walk using q_spanOuter _ _ _ _ _ _
+  · ev_walk
 
-/-- `code ≠ EOK` for a concrete code (up to unfolding the projection), or from the context -/
-macro "ne_eok" : tactic => `(tactic| first
-  | assumption | exact ne_ESNULLP | exact ne_ESZEROL | exact ne_ESLEMAX | exact ne_EOVERFLOW | exact ne_ESNOSPC
-  | exact ne_ESUNTERM | exact ne_ESOVRLP | exact ne_ESLEMIN | exact ne_ESNOTFND | exact ne_ESNODIFF)
+abbrev P1 (benign : List Nat) (k : Kind) : Nat → List Event → Prop := QPost benign k id
+theorem strprefixLoop_q (n d s : Nat) : Quiet (strprefixLoop n d s) := by
+  induction n generalizing d s with
+  | zero => unfold strprefixLoop; quiet
+  | succ n ih => unfold strprefixLoop; quiet using ih
+theorem strprefixLoop_ev (n d s : Nat) : EV (strprefixLoop n d s) (P1 [EOK, ESNOTFND] .str) := by
+  induction n generalizing d s with
+  | zero => unfold strprefixLoop; ev_walk
+  | succ n ih => unfold strprefixLoop; ev_walk using ih _ _
+theorem strprefix_s_ev (dest dmax src : Nat) (db : Bos) : EV (strprefix_s dest dmax src db) (P1 [EOK, ESNOTFND] .str) := by
+  unfold strprefix_s
+  open_chk (qChkS_ev _ _ _ _)
+  · ev_walk using strprefixLoop_ev _ _ _
+  · ev_walk
 
-/-- membership of a concrete code in a short literal list, up to unfolding the projection -/
-macro "mem_lit" : tactic => `(tactic| first
-  | exact List.Mem.head _
-  | exact List.Mem.tail _ (List.Mem.head _)
-  | exact List.Mem.tail _ (List.Mem.tail _ (List.Mem.head _))
-  | exact List.Mem.tail _ (List.Mem.tail _ (List.Mem.tail _ (List.Mem.head _))))
+theorem memcmpG_ev (max : Nat) (f : Nat → Nat → Int) (dest dlen src slen dB sB dL dL' : Nat) (db sb : Bos) :
+    EV (memcmpG max f dest dlen src slen dB sB dL dL' db sb) (P2 [EOK] .mem) := by
+  unfold memcmpG
+  split
+  · ev_walk
+  split
+  · ev_walk
+  split
+  · ev_walk
+  open_chk (memcmpChecks_ev _ _ _ _ _ _ _ _ _)
+  · ev_walk using q_memcmpLoopQ _ _ _ _ _
+  · ev_walk
+theorem memcmp_s_ev (dest dmax src slen : Nat) (db sb : Bos) : EV (memcmp_s dest dmax src slen db sb) (P2 [EOK] .mem) := memcmpG_ev ..
+theorem memcmp16_s_ev (dest dlen src slen : Nat) (db sb : Bos) : EV (memcmp16_s dest dlen src slen db sb) (P2 [EOK] .mem) := memcmpG_ev ..
+theorem memcmp32_s_ev (dest dlen src slen : Nat) (db sb : Bos) : EV (memcmp32_s dest dlen src slen db sb) (P2 [EOK] .mem) := memcmpG_ev ..
 
-/-- close a leaf `EV (pure x) R` for any of the posts above -/
-macro "ev_leaf" : tactic => `(tactic| first
-  | exact EV.pure _ (Or.inl ⟨rfl, by mem_lit⟩)
-  | exact EV.pure _ (Or.inr ⟨by ne_eok, rfl⟩)
-  | exact EV.pure _ (Or.inr ⟨by ne_eok, _, rfl⟩)
-  | exact EV.pure _ (Or.inl rfl)
-  | exact EV.pure _ (Or.inr ⟨rfl, _, by ne_eok, rfl⟩))
+/-- strpbrk_s, FULL statement false of the code (known finding `strpbrk-clears-dest`: with a known source size and
+`slen` above it the exit goes through `handle_str_bos_overflow(dest, destbos)`, which with destbos unknown reports
+twice).  Partial: source size unknown or `slen` within it. -/
+theorem strpbrk_s_ev_partial (cfg : Cfg) (dest dmax src slen : Nat) (db sb : Bos) (h : ∀ b, sb = some b → slen ≤ b) :
+    EV (strpbrk_s cfg dest dmax src slen db sb) (P2 [EOK, ESNOTFND] .str) := by
+  unfold strpbrk_s
+  open_chk (qChkS_ev _ _ _ _)
+  · cases sb with
+    | none => ev_walk using strpbrkOuter_ev _ _ _ _
+    | some b =>
+      have := h b rfl
+      simp only [Nat.not_lt.mpr this, if_false]
+      ev_walk using strpbrkOuter_ev _ _ _ _
+  · ev_walk
 
-syntax "ev_walk" (" using " term,+)? : tactic
-macro_rules
-  | `(tactic| ev_walk) => `(tactic| repeat (first
-      | ev_leaf
-      | (with_reducible refine Quiet.then_ ?_ (fun _ => ?_)); (solve | quiet)
-      | with_reducible refine EV.bind (EV.handlerS _) (fun _ es he => ?_) <;> subst he
-      | with_reducible refine EV.bind (EV.handlerM _) (fun _ es he => ?_) <;> subst he
-      | dsimp only
-      | split))
-  | `(tactic| ev_walk using $[$hs],*) => `(tactic| repeat (first
-      | ev_leaf
-      $[| with_reducible exact $hs]*
-      | (with_reducible refine Quiet.then_ ?_ (fun _ => ?_)); (solve | quiet using $[$hs],*)
-      | with_reducible refine EV.bind (EV.handlerS _) (fun _ es he => ?_) <;> subst he
-      | with_reducible refine EV.bind (EV.handlerM _) (fun _ es he => ?_) <;> subst he
-      | dsimp only
-      | split))
+/-! ## `Models/Query2.lean` -/
 
-/-- open an entry-check block `match ← chk with | some e => … | none => …` -/
-macro "open_chk " t:term : tactic => `(tactic| refine optThen $t ?_ (fun c hc => ?_))
+theorem failS2_ev {bn : List Nat} (c o : Nat) (hc : c ≠ EOK) : EV (failS2 c o) (P2 bn .str) := by
+  unfold failS2; ev_walk
+theorem chkDmaxQ_ev {α} {R : α → List Event → Prop} (mk : Nat → α) (dmax : Nat) (db : Bos) (max : Nat) {k : Prog α}
+    (hk : EV k R) (hl : R (mk ESLEMAX) [.handler .str ESLEMAX]) (ho : R (mk EOVERFLOW) [.handler .str EOVERFLOW]) :
+    EV (chkDmaxQ mk dmax db max k) R := by
+  unfold chkDmaxQ
+  have e1 : EV (do handlerS ESLEMAX; pure (mk ESLEMAX) : Prog α) R :=
+    EV.bind (EV.handlerS _) (fun _ es he => by subst he; exact EV.pure _ (by simpa using hl))
+  have e2 : EV (do handlerS EOVERFLOW; pure (mk EOVERFLOW) : Prog α) R :=
+    EV.bind (EV.handlerS _) (fun _ es he => by subst he; exact EV.pure _ (by simpa using ho))
+  split
+  · split
+    · exact e1
+    · exact hk
+  · split
+    · split
+      · exact e1
+      · exact e2
+    · exact hk
 
-/-! ## loops of `Models/Query.lean` are quiet -/
+theorem p2_fail {β} {bn : List Nat} (c : Nat) (o : β) (hc : c ≠ EOK) : P2 bn .str (c, o) [.handler .str c] := Or.inr ⟨hc, rfl⟩
 
-theorem q_strlenP (f s n : Nat) : Quiet (strlenP f s n) := by
-  induction f generalizing s n with
-  | zero => unfold strlenP; quiet
-  | succ f ih => unfold strlenP; quiet using ih
-theorem q_strchrP (c f s : Nat) : Quiet (strchrP c f s) := by
-  induction f generalizing s with
-  | zero => unfold strchrP; quiet
-  | succ f ih => unfold strchrP; quiet using ih
-theorem q_memchrP (c n s : Nat) : Quiet (memchrP c n s) := by
-  induction n generalizing s with
-  | zero => unfold memchrP; quiet
-  | succ n ih => unfold memchrP; quiet using ih
-theorem q_memrchrP (c s n : Nat) : Quiet (memrchrP c s n) := by
-  induction n with
-  | zero => unfold memrchrP; quiet
-  | succ n ih => unfold memrchrP; quiet using ih
-theorem q_strstrInner (d s dl i l : Nat) : Quiet (strstrInner d s dl i l) := by
-  induction dl generalizing i l with
-  | zero => unfold strstrInner; quiet
-  | succ n ih => unfold strstrInner; quiet using ih
-theorem q_strcasestrInner (d s dl i l : Nat) : Quiet (strcasestrInner d s dl i l) := by
-  induction dl generalizing i l with
-  | zero => unfold strcasestrInner; quiet
-  | succ n ih => unfold strcasestrInner; quiet using ih
-theorem q_strpbrkInner (d l ps : Nat) : Quiet (strpbrkInner d l ps) := by
-  induction l generalizing ps with
-  | zero => unfold strpbrkInner; quiet
-  | succ n ih => unfold strpbrkInner; quiet using ih
-theorem q_spanInner (d n s : Nat) : Quiet (spanInner d n s) := by
-  induction n generalizing s with
-  | zero => unfold spanInner; quiet
-  | succ n ih => unfold spanInner; quiet using ih
-theorem q_spanOuter (w : Bool) (src slen n d c : Nat) : Quiet (spanOuter w src slen n d c) := by
+theorem firstcharLoop_ev (c n d : Nat) : EV (firstcharLoop c n d) (P2 [EOK, ESNOTFND] .str) := by
+  induction n generalizing d with
+  | zero => unfold firstcharLoop; ev_walk
+  | succ n ih => unfold firstcharLoop; ev_walk using ih _
+theorem strfirstchar_s_ev (dest dmax c : Nat) (db : Bos) : EV (strfirstchar_s dest dmax c db) (P2 [EOK, ESNOTFND] .str) := by
+  unfold strfirstchar_s
+  split
+  · exact failS2_ev _ _ ne_ESNULLP
+  split
+  · exact failS2_ev _ _ ne_ESZEROL
+  exact chkDmaxQ_ev _ _ _ _ (firstcharLoop_ev _ _ _) (p2_fail _ _ ne_ESLEMAX) (p2_fail _ _ ne_EOVERFLOW)
+
+theorem q_lastcharLoop (c n d l : Nat) : Quiet (lastcharLoop c n d l) := by
+  induction n generalizing d l with
+  | zero => unfold lastcharLoop; quiet
+  | succ n ih => unfold lastcharLoop; quiet using ih
+theorem strlastchar_s_ev (dest dmax c : Nat) (db : Bos) : EV (strlastchar_s dest dmax c db) (P2 [EOK, ESNOTFND] .str) := by
+  unfold strlastchar_s
+  split
+  · exact failS2_ev _ _ ne_ESNULLP
+  split
+  · exact failS2_ev _ _ ne_ESZEROL
+  refine chkDmaxQ_ev _ _ _ _ ?_ (p2_fail _ _ ne_ESLEMAX) (p2_fail _ _ ne_EOVERFLOW)
+  ev_walk using q_lastcharLoop _ _ _ _
+
+theorem q_pairLoop (sm fi : Bool) (rp n d s : Nat) (l : Option Nat) : Quiet (pairLoop sm fi rp n d s l) := by
+  induction n generalizing d s l with
+  | zero => unfold pairLoop; quiet
+  | succ n ih => unfold pairLoop; quiet using ih
+theorem pairFn_ev (sm fi : Bool) (nohit : Nat) (dest dmax src : Nat) (db : Bos) :
+    EV (pairFn sm fi nohit dest dmax src db) (P2 [EOK, nohit] .str) := by
+  unfold pairFn
+  split
+  · exact failS2_ev _ _ ne_ESNULLP
+  split
+  · exact failS2_ev _ _ ne_ESNULLP
+  split
+  · exact failS2_ev _ _ ne_ESZEROL
+  refine chkDmaxQ_ev _ _ _ _ ?_ (p2_fail _ _ ne_ESLEMAX) (p2_fail _ _ ne_EOVERFLOW)
+  ev_walk using q_pairLoop _ _ _ _ _ _ _
+theorem strfirstdiff_s_ev (dest dmax src : Nat) (db : Bos) : EV (strfirstdiff_s dest dmax src db) (P2 [EOK, ESNODIFF] .str) := pairFn_ev ..
+theorem strfirstsame_s_ev (dest dmax src : Nat) (db : Bos) : EV (strfirstsame_s dest dmax src db) (P2 [EOK, ESNOTFND] .str) := pairFn_ev ..
+theorem strlastdiff_s_ev (dest dmax src : Nat) (db : Bos) : EV (strlastdiff_s dest dmax src db) (P2 [EOK, ESNODIFF] .str) := pairFn_ev ..
+theorem strlastsame_s_ev (dest dmax src : Nat) (db : Bos) : EV (strlastsame_s dest dmax src db) (P2 [EOK, ESNOTFND] .str) := pairFn_ev ..
+
+/-! the `bool` predicates -/
+abbrev PB : Bool → List Event → Prop := FPost false
+theorem pb_fail (c : Nat) (hc : c ≠ EOK) : PB false [.handler .str c] := Or.inr ⟨rfl, c, hc, rfl⟩
+theorem chkDestDmaxBool_ev (dest dmax : Nat) (db : Bos) (max : Nat) {k : Prog Bool} (hk : EV k PB) :
+    EV (chkDestDmaxBool dest dmax db max k) PB := by
+  unfold chkDestDmaxBool
+  split
+  · ev_walk
+  split
+  · ev_walk
+  exact chkDmaxQ_ev _ _ _ _ hk (pb_fail _ ne_ESLEMAX) (pb_fail _ ne_EOVERFLOW)
+theorem q_classLoop (ok : Nat → Bool) (n d : Nat) : Quiet (classLoop ok n d) := by
+  induction n generalizing d with
+  | zero => unfold classLoop; quiet
+  | succ n ih => unfold classLoop; quiet using ih
+theorem q_classLoopNoBound (ok : Nat → Bool) (n d : Nat) : Quiet (classLoopNoBound ok n d) := by
+  induction n generalizing d with
+  | zero => unfold classLoopNoBound; quiet
+  | succ n ih => unfold classLoopNoBound; quiet using ih
+theorem quiet_PB {p : Prog Bool} (h : Quiet p) : EV p PB := h.conseq (fun _ _ ⟨he, _⟩ => Or.inl he)
+theorem predFn_ev (ok : Nat → Bool) (b : Bool) (dest dmax : Nat) (db : Bos) : EV (predFn ok b dest dmax db) PB := by
+  unfold predFn
+  refine chkDestDmaxBool_ev _ _ _ _ (quiet_PB ?_)
+  quiet using q_classLoop _ _ _, q_classLoopNoBound _ _ _
+theorem strisascii_s_ev (dest dmax : Nat) (db : Bos) : EV (strisascii_s dest dmax db) PB :=
+  chkDestDmaxBool_ev _ _ _ _ (quiet_PB (q_classLoop _ _ _))
+theorem pwLoop_ev (n d : Nat) (c : PwCnt) : EV (pwLoop n d c) PB := by
   induction n generalizing d c with
-  | zero => unfold spanOuter; quiet
-  | succ n ih => unfold spanOuter; quiet using ih, q_spanInner
-theorem q_memcmpLoopQ (f : Nat → Nat → Int) (n m d s : Nat) : Quiet (memcmpLoopQ f n m d s) := by
-  induction n generalizing m d s with
-  | zero => unfold memcmpLoopQ; quiet
-  | succ n ih =>
-    cases m with
-    | zero => unfold memcmpLoopQ; quiet
-    | succ m => unfold memcmpLoopQ; quiet using ih
-theorem q_strnlenLoop (n s c : Nat) (b : Bos) : Quiet (strnlenLoop n s c b) := by
+  | zero => unfold pwLoop; ev_walk
+  | succ n ih => unfold pwLoop; ev_walk using ih _ _
+theorem strispassword_s_ev (dest dmax : Nat) (db : Bos) : EV (strispassword_s dest dmax db) PB := by
+  unfold strispassword_s
+  refine chkDestDmaxBool_ev _ _ _ _ ?_
+  ev_walk using pwLoop_ev _ _ _
+
+/-- strrchr_s, all arguments, all memory (after the `fix:` commit that rejects a dmax above RSIZE_MAX_STR for a known
+object as well; before it the inner `strnlen_s(dest, dmax)` reported ESLEMAX and strrchr_s returned ESZEROL:
+`strrchr_s_C05_fixed_point` in C05Copy.lean is that input).  ESZEROL is also this function's SILENT answer for an empty string, hence a
+result code here; `ch > 255` is reported through the str handler, dest checks too (kind left open for memrchr_s). -/
+theorem strrchr_s_ev (dest dmax : Nat) (ch : Int) (db : Bos) :
+    EV (strrchr_s dest dmax ch db) (P2Any [EOK, ESNOTFND, ESZEROL]) := by
+  unfold strrchr_s
+  refine optThenF (qChkS_evF _ _ _ _) (fun ⟨hd, hz, _, _⟩ => ?_) (fun c hc => ?_)
+  · dsimp only
+    split
+    · ev_walk
+    split
+    · ev_walk
+    · refine Quiet.then_ (q_strnlen_s_ok _ _ _ hd hz (by omega)) (fun len => ?_)
+      split
+      · refine (memrchr_s_ev _ _ _ _).conseq (fun y es h => ?_)
+        rcases h with ⟨h1, h2⟩ | h
+        · refine Or.inl ⟨h1, ?_⟩
+          simp only [List.mem_cons, List.mem_nil_iff, or_false] at h2 ⊢
+          rcases h2 with h2 | h2
+          · exact Or.inl h2
+          · exact Or.inr (Or.inl h2)
+        · exact Or.inr h
+      · ev_walk
+  · ev_walk
+
+theorem quiet_F {α} {fv : α} {p : Prog α} (h : Quiet p) : EV p (FPost fv) := h.conseq (fun _ _ ⟨he, _⟩ => Or.inl he)
+theorem quiet_Q {α} {bn : List Nat} {k : Kind} {code : α → Nat} {p : Prog α} (h : EV.Silent p (fun y => code y ∈ bn)) :
+    EV p (QPost bn k code) := h.conseq (fun _ _ ⟨he, hb⟩ => Or.inl ⟨he, hb⟩)
+
+/-! wide queries -/
+theorem q_wcsnlenLoop (n s c : Nat) : Quiet (wcsnlenLoop n s c) := by
+  induction n generalizing s c with
+  | zero => unfold wcsnlenLoop; quiet
+  | succ n ih => unfold wcsnlenLoop; quiet using ih
+theorem q_wcsnlenBosLoop (o n s c b : Nat) : Quiet (wcsnlenBosLoop o n s c b) := by
   induction n generalizing s c b with
-  | zero => unfold strnlenLoop; quiet
-  | succ n ih => unfold strnlenLoop; quiet using ih
+  | zero => unfold wcsnlenBosLoop; exact Quiet.pure _
+  | succ n ih =>
+    unfold wcsnlenBosLoop
+    refine Quiet.bind (Quiet.loadP _) (fun v => ?_)
+    split
+    · exact Quiet.pure _
+    · show Quiet (if (b + two64 - SIZEOF_WCHAR_T) % two64 = 0 then pure c else wcsnlenBosLoop o n (s + 1) (c + 1) ((b + two64 - SIZEOF_WCHAR_T) % two64))
+      split
+      · exact Quiet.pure _
+      · exact ih _ _ _
+abbrev PN : Nat → List Event → Prop := FPost 0
+theorem wcsnlen_s_chk_ev (str smax : Nat) (sb : Bos) : EV (wcsnlen_s_chk str smax sb) PN := by
+  unfold wcsnlen_s_chk
+  ev_walk using (quiet_F (q_wcsnlenBosLoop _ _ _ _ _)), (quiet_F (q_wcsnlenLoop _ _ _))
 
-/-! ## result-code posts -/
+theorem q_wcscmpLoop (u : Bool) (n sm c d s : Nat) : Quiet (wcscmpLoop u n sm c d s) := by
+  induction n generalizing sm c d s with
+  | zero => unfold wcscmpLoop; quiet
+  | succ n ih => unfold wcscmpLoop; quiet using ih
+theorem wcscmpG_ev (u : Bool) (dest dmax src smax count : Nat) (db sb : Bos) :
+    EV (wcscmpG u dest dmax src smax count db sb) (P2 [EOK] .str) := by
+  unfold wcscmpG
+  ev_walk using q_wcscmpLoop _ _ _ _ _ _
+theorem wcscmp_s_ev (dest dmax src smax : Nat) (db sb : Bos) : EV (wcscmp_s dest dmax src smax db sb) (P2 [EOK] .str) := wcscmpG_ev ..
+theorem wcsncmp_s_ev (dest dmax src smax count : Nat) (db sb : Bos) : EV (wcsncmp_s dest dmax src smax count db sb) (P2 [EOK] .str) := wcscmpG_ev ..
 
-abbrev P2 {β} (benign : List Nat) (k : Kind) : Nat × β → List Event → Prop := QPost benign k (·.1)
+theorem q_wcsstrInner (d s n i l : Nat) : Quiet (wcsstrInner d s n i l) := by
+  induction n generalizing i l with
+  | zero => unfold wcsstrInner; quiet
+  | succ n ih => unfold wcsstrInner; quiet using ih
+theorem wcsstrOuter_ev (src slen n d : Nat) : EV (wcsstrOuter src slen n d) (P2 [EOK, ESNOTFND] .str) := by
+  induction n generalizing d with
+  | zero => unfold wcsstrOuter; ev_walk
+  | succ n ih => unfold wcsstrOuter; ev_walk using ih _, q_wcsstrInner _ _ _ _ _
+theorem wcsstr_s_ev (dest dmax src slen : Nat) (db sb : Bos) : EV (wcsstr_s dest dmax src slen db sb) (P2 [EOK, ESNOTFND] .str) := by
+  unfold wcsstr_s
+  ev_walk using wcsstrOuter_ev _ _ _ _, failS2_ev _ _ ne_ESNULLP, failS2_ev _ _ ne_ESZEROL, failS2_ev _ _ ne_ESLEMAX, failS2_ev _ _ ne_EOVERFLOW
 
+theorem q_wmemcmpLoop (n m d s : Nat) : Quiet (wmemcmpLoop n m d s) := by
+  induction n generalizing m d s with
+  | zero => unfold wmemcmpLoop; quiet
+  | succ n ih => unfold wmemcmpLoop; quiet using ih
+theorem wmemcmp_s_ev (dest dlen src slen : Nat) (db sb : Bos) : EV (wmemcmp_s dest dlen src slen db sb) (P2 [EOK] .mem) := by
+  unfold wmemcmp_s
+  ev_walk using q_wmemcmpLoop _ _ _ _
+
+/-! tokenizers: NULL + errno is the failure indication; the observation has the returned pointer -/
+/-- reported: NULL returned and exactly one str-handler event -/
+abbrev PT1 : TokOut → List Event → Prop := fun o es => o.ret = 0 ∧ ∃ c, c ≠ EOK ∧ es = [.handler .str c]
+abbrev PT : TokOut → List Event → Prop := fun o es => es = [] ∨ PT1 o es
+theorem tokFail_ev1 (c : Nat) (hc : c ≠ EOK) : EV (tokFail c) PT1 := by
+  unfold tokFail
+  exact EV.bind (EV.handlerS c) (fun _ es he => by subst he; exact EV.pure _ ⟨rfl, c, hc, by simp⟩)
+theorem tokFail_ev (c : Nat) (hc : c ≠ EOK) : EV (tokFail c) PT := (tokFail_ev1 c hc).conseq (fun _ _ h => Or.inr h)
+theorem tokUnterm_ev1 (d : Nat) : EV (tokUnterm d) PT1 := by
+  unfold tokUnterm
+  refine Quiet.then_ (Quiet.storeP _ _) (fun _ => ?_)
+  exact EV.bind (EV.handlerS _) (fun _ es he => by subst he; exact EV.pure _ ⟨rfl, _, ne_ESUNTERM, by simp⟩)
+theorem tokUnterm_ev (d : Nat) : EV (tokUnterm d) PT := (tokUnterm_ev1 d).conseq (fun _ _ h => Or.inr h)
+theorem q_delimScan1 (d n pt : Nat) (t : Bool) : Quiet (delimScan1 d n pt t) := by
+  induction n generalizing pt t with
+  | zero => unfold delimScan1; quiet
+  | succ n ih => unfold delimScan1; quiet using ih
+theorem q_delimScan2 (d n pt : Nat) : Quiet (delimScan2 d n pt) := by
+  induction n generalizing pt with
+  | zero => unfold delimScan2; quiet
+  | succ n ih => unfold delimScan2; quiet using ih
+
+abbrev PS1 : Scan1 → List Event → Prop :=
+  fun r es => (es = [] ∧ ∃ a b c, r = .exit a b c) ∨ (∃ o, r = .out o ∧ PT1 o es)
+theorem out_of_PT1 {p : Prog TokOut} (h : EV p PT1) : EV (do let o ← p; pure (Scan1.out o)) PS1 :=
+  EV.bind h (fun o es ho => EV.pure _ (Or.inr ⟨o, rfl, by simpa using ho⟩))
+theorem scan1_ev (w : Bool) (delim n d : Nat) : EV (scan1 w delim n d) PS1 := by
+  induction n generalizing d with
+  | zero =>
+    unfold scan1
+    refine Quiet.then_ (Quiet.loadP _) (fun c => ?_)
+    split
+    · exact EV.pure _ (Or.inl ⟨rfl, _, _, _, rfl⟩)
+    split
+    · exact out_of_PT1 (tokUnterm_ev1 d)
+    · exact EV.bind (EV.handlerS _) (fun _ es he => by
+        subst he; exact EV.pure _ (Or.inr ⟨_, rfl, rfl, _, ne_ESUNTERM, by simp⟩))
+  | succ n ih =>
+    unfold scan1
+    refine Quiet.then_ (Quiet.loadP _) (fun c => ?_)
+    split
+    · exact EV.pure _ (Or.inl ⟨rfl, _, _, _, rfl⟩)
+    refine Quiet.then_ (q_delimScan1 _ _ _ _) (fun r => ?_)
+    split
+    · exact out_of_PT1 (tokUnterm_ev1 d)
+    · exact Quiet.then_ (Quiet.loadP _) (fun _ => EV.pure _ (Or.inl ⟨rfl, _, _, _, rfl⟩))
+    · exact ih _
+theorem scan2_ev (delim pt n d : Nat) : EV (scan2 delim pt n d) PT := by
+  induction n generalizing d with
+  | zero => unfold scan2; ev_walk using tokUnterm_ev _
+  | succ n ih => unfold scan2; ev_walk using tokUnterm_ev _, ih _, q_delimScan2 _ _ _
+theorem tokBody_ev (w : Bool) (delim d n : Nat) : EV (tokBody w delim d n) PT := by
+  unfold tokBody
+  refine EV.bind (scan1_ev _ _ _ _) (fun r es h => ?_)
+  rcases h with ⟨rfl, a, b, c, rfl⟩ | ⟨o, rfl, ho⟩
+  · simp only [List.nil_append]
+    ev_walk using scan2_ev _ _ _ _
+  · exact EV.pure _ (Or.inr (by simpa using ho))
+theorem strtok_s_ev (dest : Nat) (dmaxp : Option Nat) (delim : Nat) (ptr : Option Nat) (db : Bos) :
+    EV (strtok_s dest dmaxp delim ptr db) PT := by
+  unfold strtok_s
+  ev_walk using tokFail_ev _ ne_ESNULLP, tokFail_ev _ ne_ESZEROL, tokFail_ev _ ne_ESLEMAX, tokFail_ev _ ne_EOVERFLOW, tokBody_ev _ _ _ _
+theorem wcstok_s_ev (dest : Nat) (dmaxp : Option Nat) (delim : Nat) (ptr : Option Nat) (db : Bos) :
+    EV (wcstok_s dest dmaxp delim ptr db) PT := by
+  unfold wcstok_s
+  ev_walk using tokFail_ev _ ne_ESNULLP, tokFail_ev _ ne_ESZEROL, tokFail_ev _ ne_ESLEMAX, tokFail_ev _ ne_EOVERFLOW, tokBody_ev _ _ _ _
 
 end SafeC.Props.C05Query
